@@ -20,6 +20,8 @@ func tokWeight(t Tok) int {
 	switch {
 	case t.T == "absent":
 		return 0
+	case t.T == "alt":
+		return 1 + tokWeight(t.E[0])
 	case (t.T == "num" || t.T == "str") && (t.V == "3" || t.V == "a"):
 		return 1
 	case (t.T == "num" || t.T == "str") && (t.V == "100" || t.V == "-100" || t.V == "c"):
@@ -57,11 +59,14 @@ func weight(c *Case) int {
 		if f.Str {
 			w += 10
 		}
-		if f.InnerOpt {
+		if f.InnerOpt || f.EmbOpt {
 			w += 10
 		}
 		if f.Kind != KInt {
 			w += 5
+		}
+		if f.Key != "" {
+			w += 7 + strings.Count(f.Key, ".")
 		}
 		w += tokWeight(c.Toks[i])
 	}
@@ -119,6 +124,16 @@ func candidates(c *Case) []*Case {
 	}
 	for j, f := range c.Fields {
 		dc := delivery(c.Entry, f)
+		if f.Key != "" {
+			// the one-letter key of the position (the other placement of a value only exists for a dotted key)
+			mod(j, func(f *Field, t *Tok) { f.Key = ""; *t, _ = t.placed() })
+			if strings.Count(f.Key, ".") > 1 {
+				mod(j, func(f *Field, _ *Tok) { f.Key = "p.q" })
+			}
+		}
+		if v, alt := c.Toks[j].placed(); alt {
+			mod(j, func(_ *Field, t *Tok) { *t = v })
+		}
 		switch f.Opt {
 		case OptNotDep:
 			mod(j, func(f *Field, _ *Tok) { f.Opt = OptDep })
@@ -167,7 +182,10 @@ func candidates(c *Case) []*Case {
 			mod(j, func(f *Field, _ *Tok) { f.Str = false })
 		}
 		if f.Kind.numeric() && f.Kind != KInt {
-			mod(j, func(f *Field, _ *Tok) { f.Kind = KInt })
+			mod(j, func(f *Field, _ *Tok) { f.Kind, f.EmbOpt = KInt, false })
+		}
+		if f.EmbOpt {
+			mod(j, func(f *Field, _ *Tok) { f.EmbOpt = false })
 		}
 		if f.Kind == KPString {
 			mod(j, func(f *Field, _ *Tok) { f.Kind = KString })
@@ -319,11 +337,17 @@ func asJSONCase(c *Case) *Case {
 	return n
 }
 
-var kindFeat = [...]string{"", "int8", "uint", "float64", "string", "bool", "ptr-int", "ptr-string", "nested", "slice", "map", "slice-string", "slice-bool"}
+var kindFeat = [...]string{"", "int8", "uint", "float64", "string", "bool", "ptr-int", "ptr-string", "nested", "slice", "map", "slice-string", "slice-bool", "embedded"}
 
 func features(c *Case, i int, fdKind string) []string {
 	f := c.Fields[i]
 	var fs []string
+	switch {
+	case f.dotted():
+		fs = append(fs, "dotted-key")
+	case f.Key != "":
+		fs = append(fs, "key="+f.Key)
+	}
 	if kindFeat[f.Kind] != "" {
 		fs = append(fs, kindFeat[f.Kind])
 	}
@@ -363,6 +387,9 @@ func features(c *Case, i int, fdKind string) []string {
 	}
 	if f.InnerOpt {
 		fs = append(fs, "inner-optional")
+	}
+	if f.EmbOpt {
+		fs = append(fs, "embedded-optional")
 	}
 	return fs
 }
